@@ -45,6 +45,10 @@ CMD_ARGS = {
 }
 
 
+# commands that take the config directory as an optional positional argument
+ADDRESSABLE = ('up_json', 'up_summary', 'up_html', 'up_migrate', 'discover', 'diag')
+
+
 def starters():
     from tally import cli as tcli
     year = datetime.datetime.now().year
@@ -217,15 +221,36 @@ def _run_history(item):
         snaps = [snap()]
         rcs = []
         written = []
-        for c in cmds:
+        hows = []
+        for k, c in enumerate(cmds):
             args = [a.replace('data/card.csv', prefix + 'data/card.csv') for a in CMD_ARGS[c]]
-            r = cli.run_tally(args, cwd=d, root=d)
+            # the budget may be ADDRESSED in several ways (found from the project folder, named on the command line - with or
+            # without a trailing separator, relative or absolute -, named as "." from inside it, or through TALLY_CONFIG):
+            # what a command may touch does not depend on the spelling
+            cwd, env_extra, how = d, None, 'found'
+            if c in ADDRESSABLE:
+                mode = (sum(map(ord, hid)) * 7 + k * 3 + len(c)) % 8
+                cfgrel = prefix + 'config'
+                if mode == 2:
+                    args, how = args[:1] + [cfgrel + '/'] + args[1:], 'relative/'
+                elif mode == 3:
+                    args, how = args[:1] + ['./' + cfgrel] + args[1:], './relative'
+                elif mode == 4:
+                    args, how = args[:1] + [os.path.join(d, cfgrel) + os.sep] + args[1:], 'absolute/'
+                elif mode == 5:
+                    args, cwd, how = args[:1] + ['.'] + args[1:], os.path.join(d, cfgrel), 'dot-from-inside'
+                elif mode == 6:
+                    env_extra, how = {'TALLY_CONFIG': cfgrel + '/'}, 'TALLY_CONFIG'
+                if not os.path.isdir(os.path.join(d, cfgrel)):
+                    args, cwd, env_extra, how = [a.replace('data/card.csv', prefix + 'data/card.csv') for a in CMD_ARGS[c]], d, None, 'found'
+            hows.append(how)
+            r = cli.run_tally(args, cwd=cwd, root=d, env_extra=env_extra)
             rcs.append(r['rc'])
             written.append(sorted({e['path'] for e in r['effects'] if 'path' in e}))
             snaps.append(snap())
         states = [abstract(s, st, crlf=crlf) for s in snaps]
         frames = [direct_frame(c, snaps[k], snaps[k + 1]) for k, c in enumerate(cmds)]
-        return {'id': hid, 'cmds': cmds, 'states': states, 'frames': frames, 'rcs': rcs, 'written': written}
+        return {'id': hid, 'cmds': cmds, 'states': states, 'frames': frames, 'rcs': rcs, 'written': written, 'addressed': hows}
     finally:
         shutil.rmtree(d, ignore_errors=True)
 
@@ -291,7 +316,7 @@ def run(ck):
         for k, (c, fr) in enumerate(zip(r['cmds'], r['frames'])):
             for clause, path in fr:
                 ck.violation({'site': c, 'clause': clause, 'path': path},
-                             {'fs0': r['states'][0], 'cmds': r['cmds'], 'step': k, 'detail': fr, 'args': CMD_ARGS[c]},
+                             {'fs0': r['states'][0], 'cmds': r['cmds'], 'step': k, 'detail': fr, 'args': CMD_ARGS[c], 'addressed': r.get('addressed'), 'id': r['id']},
                              '`tally %s` (step %d of %s) %s %s' % (' '.join(CMD_ARGS[c]), k + 1, r['cmds'], clause, path))
         if r['id'] in pred and pred[r['id']] != r['states']:
             conf_notes += 1
@@ -326,7 +351,7 @@ def run(ck):
 
 def replay(ck, path):
     case = json.load(open(path))['case']
-    r = _run_history(('replay', case['fs0'], case['cmds']))
+    r = _run_history((case.get('id', 'replay'), case['fs0'], case['cmds']))      # (the id decides layout, line endings and addressing)
     print(json.dumps(r, indent=1))
     for k, (c, fr) in enumerate(zip(r['cmds'], r['frames'])):
         for clause, p in fr:
